@@ -30,8 +30,10 @@ theorem config (cfg : Cfg) : C02Spec.ConfigOk (limits (effective cfg)) := by
 /-- **C02.store** whatever TTL is requested (zero, negative, tiny, huge), each of the four
     lifetimes recorded for a store — chunk record, manifest expiry, shard record, self-announce —
     lies inside [min, max] of the effective configuration. -/
-theorem store (cfg : Cfg) (ttl steady wall : Int) :
-    C02Spec.StoreOk (effective cfg).min_manifest_ttl (effective cfg).max_manifest_ttl (storeChunk cfg ttl steady wall) := by
+theorem store (cfg : Cfg) (ttl steady wall prevShard : Int)
+    -- a key-share record already in the table was itself written with a TTL ≤ max at an earlier time
+    (hprev : prevShard ≤ steady + (effective cfg).max_manifest_ttl * 1000000000) :
+    C02Spec.StoreOk (effective cfg).min_manifest_ttl (effective cfg).max_manifest_ttl (storeChunk cfg ttl steady wall prevShard) := by
   have w : Window (effective cfg) := window cfg
   have hpos := w.min_pos
   -- the TTL that reaches each of the four recording sites is the clamped one
@@ -61,11 +63,12 @@ theorem store (cfg : Cfg) (ttl steady wall : Int) :
     clock value below 2^63 − 86 400·10^9 -/
 theorem store_deadline_bound (cfg : Cfg) (ttl steady wall : Int) :
     (storeChunk cfg ttl steady wall).chunk ≤ 86400 * 1000000000 ∧ 0 < (storeChunk cfg ttl steady wall).chunk := by
-  have s := store cfg ttl steady wall
   have w : Window (effective cfg) := window cfg
+  have s := store cfg ttl steady wall steady (by have := w.min_pos; have := w.min_le_max; omega)
   unfold C02Spec.StoreOk C02Spec.DurationOk C02Spec.nsPerS at s
   have := w.min_pos
   have := w.max_le_day
+  have e : (storeChunk cfg ttl steady wall steady).chunk = (storeChunk cfg ttl steady wall).chunk := rfl
   omega
 
 /-- **C02.put_noop** `ChunkStore::put`'s own floor never changes a TTL that is inside the window -/
